@@ -108,29 +108,75 @@ def sir_runs(args):
 
 
 def chain_runs(args):
+    """runs of the linear chain A -> B -> C (variant "death": A -> B -> removed).  Returns, per run, the state at every
+    observation time.  Variants: "scalar" (horizon only; the state is read off the raw path), "own" (the per-run call of
+    the parallel route), "grid" (a vector of observation times handed to solve_stochast: the rows it returns are what a
+    user reads the law from), "limits" (grid route, every state declared with the two-sided limits (0, N0), which every
+    reachable state satisfies), "death" (grid route, the last step is a death-type transition)."""
     from harness import build  # noqa
     from pygom import SimulateOde, Transition, Event
     from pygom.model import ode_utils
-    n0, a, b, tobs, n, seed = args[:6]
-    own_generator = len(args) > 6 and args[6]
-    m = SimulateOde(state=["A", "B", "C"], param=["a", "b"],
+    n0, a, b, times, n, seed, variant = args
+    times = [float(x) for x in times]
+    if variant == "death":
+        state = ["A", "B"]
+        last = Transition(origin="B", transition_type="D")
+    else:
+        state = ["A", "B", "C"]
+        last = Transition(origin="B", destination="C", transition_type="T")
+    if variant == "limits":
+        state = [(nm, (0, n0)) for nm in state]
+    m = SimulateOde(state=state, param=["a", "b"],
                     event=[Event(rate="a*A", transition_list=[Transition(origin="A", destination="B", transition_type="T")]),
-                           Event(rate="b*B", transition_list=[Transition(origin="B", destination="C", transition_type="T")])])
+                           Event(rate="b*B", transition_list=[last])])
     m._SC = ode_utils.compileCode(backend="lambda")
     m.parameters = [float(a), float(b)]
-    m.initial_values = (np.array([float(n0), 0.0, 0.0]), np.float64(0))
+    x0 = [float(n0), 0.0, 0.0][:len(state)]
+    m.initial_values = (np.array(x0), np.float64(0))
     np.random.seed(seed)
-    if own_generator:
-        # the call solve_stochast(..., parallel=True) makes for each run (executed here one after the other): every
-        # draw comes from a generator of its own, seeded by the operating system
-        runs = [m._jump(float(tobs) * 4, exact=True, full_output=True, seed=True) for _ in range(n)]
-        X, T = [r[0] for r in runs], [r[2] for r in runs]
-    else:
-        X, J, T = m.solve_stochast(float(tobs) * 4, n, exact=True, full_output=True)
     out = []
-    for x, t in zip(X, T):
-        k = int(np.searchsorted(np.asarray(t, float), float(tobs), side="right")) - 1
-        out.append([int(v) for v in x[k]])
+    import signal
+
+    class _NoReturn(BaseException):
+        pass
+
+    def _alarm(*_a):
+        raise _NoReturn()
+    # a chunk of runs takes about a second; a simulation that has not come back after 90 s is reported as
+    # "did not return" (a chain of N0 individuals has at most 2*N0 events)
+    signal.signal(signal.SIGALRM, _alarm)
+    signal.alarm(90)
+    try:
+        out = _chain_rows(m, variant, times, n, state)
+    except _NoReturn:
+        out = [None] * n
+    finally:
+        signal.alarm(0)
+    return out
+
+
+def _chain_rows(m, variant, times, n, state):
+    out = []
+    if variant in ("scalar", "own"):
+        if variant == "own":
+            # the call solve_stochast(..., parallel=True) makes for each run (executed here one after the other): every
+            # draw comes from a generator of its own, seeded by the operating system
+            runs = [m._jump(times[-1] * 4, exact=True, full_output=True, seed=True) for _ in range(n)]
+            X, T = [r[0] for r in runs], [r[2] for r in runs]
+        else:
+            X, J, T = m.solve_stochast(times[-1] * 4, n, exact=True, full_output=True)
+        for x, t in zip(X, T):
+            ks = [int(np.searchsorted(np.asarray(t, float), tt, side="right")) - 1 for tt in times]
+            out.append([[int(v) for v in x[k]] for k in ks])
+    else:
+        grid = np.array([0.0] + times)
+        X, J, T = m.solve_stochast(grid, n, exact=True, full_output=True)
+        for x in X:
+            x = np.asarray(x, float)
+            if x.shape != (len(grid), len(state)):
+                out.append(None)
+                continue
+            out.append([[int(v) for v in x[k + 1]] for k in range(len(times))])
     return out
 
 
@@ -146,7 +192,7 @@ def law_tests(rep, tier, seed):
          (12, Fraction(1), Fraction(1), Fraction(3, 2)), (5, Fraction(1, 4), Fraction(2), Fraction(3))]
     n = 2400 if quick else 20000
     ninst = len(sir_inst) + len(chain_inst)
-    cells_total = sum(s0 + 1 for s0, *_ in sir_inst) + sum(3 * (n0 + 1) for n0, *_ in chain_inst) + 3 * (chain_inst[0][0] + 1)
+    cells_total = sum(s0 + 1 for s0, *_ in sir_inst) + sum(3 * (n0 + 1) for n0, *_ in chain_inst) + 3 * 3 * 9 * (max(c[0] for c in chain_inst) + 1)
     alpha_cell = ALPHA / cells_total
     rep.cov["law_test"] = {"runs_per_instance": n, "instances": ninst, "cells": cells_total, "alpha_per_cell": alpha_cell}
     nchunks = 16
@@ -176,37 +222,61 @@ def law_tests(rep, tier, seed):
         rep.sample({"law_test": "SIR final size", "instance": [s0, i0, str(beta), str(gamma), npop],
                     "exact_law": {str(k): str(v) for k, v in sorted(law.items())[:4]}, "counts": counts}, limit=6)
     from scipy.stats import binom
-    chain_all = [(inst, False) for inst in chain_inst] + [(chain_inst[0], True)]
-    for ((n0, a, b, tobs), own) in chain_all:
-        # occupancy probabilities of one individual at time t (closed form, a != b by construction)
-        af, bf, tf = float(a), float(b), float(tobs)
-        p1 = np.exp(-af * tf)
-        p2 = af / (bf - af) * (np.exp(-af * tf) - np.exp(-bf * tf))
-        p3 = 1 - p1 - p2
-        jobs = [(n0, a, b, tobs, n // nchunks, (seed + 131 * k) % 2 ** 31, own) for k in range(nchunks)]
+    # (instance, variant, observation times): the scalar route on every instance; on the first instances also the per-run
+    # call of the parallel route and the gridded routes -- a grid ending before absorption, a grid reaching far past it
+    # (the law there is a point mass), two-sided limits that every reachable state satisfies, a death-type last step
+    far = lambda inst: Fraction(60) / min(inst[1], inst[2])
+    chain_all = [(inst, "scalar", [inst[3]]) for inst in chain_inst]
+    c0 = chain_inst[0]
+    chain_all += [(c0, "own", [c0[3]]), (c0, "grid", [c0[3] / 2, c0[3]]), (c0, "grid", [c0[3], far(c0)]),
+                  (c0, "limits", [c0[3], far(c0)]), (c0, "death", [c0[3] / 2, c0[3], far(c0)])]
+    if not quick:
+        c1 = chain_inst[1]
+        chain_all += [(c1, "grid", [c1[3] / 3, c1[3], 2 * c1[3]]), (c1, "limits", [c1[3], far(c1)]),
+                      (c1, "death", [c1[3], far(c1)])]
+    for ((n0, a, b, tobs), variant, times) in chain_all:
+        jobs = [(n0, a, b, times, n // nchunks, (seed + 131 * k) % 2 ** 31, variant) for k in range(nchunks)]
         rows = [r for chunk in mc.pool_map(chain_runs, jobs) for r in chunk]
         ntot = len(rows)
+        key = "law|chain|cell" + ("|own-generator" if variant == "own" else "" if variant == "scalar" else "|" + variant)
+        what = {"instance": [n0, str(a), str(b), [str(x) for x in times]], "variant": variant}
+        if any(r is None for r in rows):
+            rep.violation("solve_stochast did not return one row per requested time (or did not come back within 90 s) "
+                          "for the linear chain, route %s" % variant, what, key=key + "|no-return")
+            rows = [r for r in rows if r is not None]
+            if not rows:
+                continue
         bad = None
-        for j, pj in enumerate((p1, p2, p3)):
-            col = [r[j] for r in rows]
-            for v in range(n0 + 1):
-                pc = float(binom.pmf(v, n0, pj))
-                lo, hi = binom_region(ntot, pc, alpha_cell)
-                c = col.count(v)
-                if not (lo <= c <= hi):
-                    bad = (j, v, c, pc, lo, hi)
+        ps = []
+        for k, tt in enumerate(times):
+            # occupancy probabilities of one individual at time t (closed form, a != b by construction)
+            af, bf, tf = float(a), float(b), float(tt)
+            p1 = np.exp(-af * tf)
+            p2 = af / (bf - af) * (np.exp(-af * tf) - np.exp(-bf * tf))
+            p3 = 1 - p1 - p2
+            ps.append([p1, p2, p3])
+            for j, pj in enumerate((p1, p2, p3)[:len(rows[0][0]) if rows else 3]):
+                col = [r[k][j] for r in rows]
+                for v in range(n0 + 1):
+                    pc = float(binom.pmf(v, n0, pj))
+                    lo, hi = binom_region(ntot, pc, alpha_cell)
+                    c = col.count(v)
+                    if not (lo <= c <= hi):
+                        bad = (tt, j, v, c, pc, lo, hi)
+                        break
+                if bad:
                     break
             if bad:
                 break
         if bad:
-            rep.violation("occupancy law of the linear chain (N0=%d,a=%s,b=%s,t=%s): compartment %d value %d has %d of %d "
-                          "runs, exact probability %.5f, region [%d, %d]" % ((n0, a, b, tobs) + bad[:3] + (ntot,) + bad[3:]),
-                          {"instance": [n0, str(a), str(b), str(tobs)], "own_generator_per_draw": own},
-                          key="law|chain|cell" + ("|own-generator" if own else ""))
+            rep.violation("occupancy law of the linear chain (N0=%d,a=%s,b=%s, route %s) at t=%s: compartment %d value %d has "
+                          "%d of %d runs, exact probability %.5f, region [%d, %d]"
+                          % ((n0, a, b, variant) + bad[:4] + (len(rows),) + bad[4:]), what, key=key)
         rep.count(ntot)
-        rep.sample({"law_test": "linear chain occupancy" + (" (one generator per draw, as in the parallel route)" if own else ""),
-                    "instance": [n0, str(a), str(b), str(tobs)],
-                    "p": [p1, p2, p3], "mean_observed": [float(np.mean([r[j] for r in rows])) for j in range(3)]}, limit=6)
+        rep.distinct(("law-chain", variant, n0, str(a), str(b), tuple(str(x) for x in times)))
+        rep.sample({"law_test": "linear chain occupancy, route " + variant, "instance": what["instance"], "p": ps,
+                    "mean_observed_at_last_time": [float(np.mean([r[-1][j] for r in rows])) for j in range(len(rows[0][0]))]
+                    if rows else None}, limit=8)
 
 
 def run(rep, tier, seed):
